@@ -63,6 +63,9 @@ def trans_value(t):
                 priority=t.priority, pre=list(t.preconditions), post=list(t.postconditions), inv=list(t.invariants))
 
 
+FREED = []
+
+
 def random_op(rng, sc, uniq):
     """-> (description for Coq, thunk performing it on sc)"""
     from sismic.model import Transition
@@ -70,7 +73,8 @@ def random_op(rng, sc, uniq):
     pick = lambda: rng.choice(names) if names and rng.random() < 0.85 else 'ghost%d' % rng.randint(0, 3)
     r = rng.random()
     if r < 0.2:
-        nm = 'new%d' % next(uniq) if rng.random() < 0.8 else pick()
+        gone = [x for x in FREED if x not in sc._states]
+        nm = rng.choice(gone) if gone and rng.random() < 0.25 else ('new%d' % next(uniq) if rng.random() < 0.8 else pick())
         st = new_state(rng, nm)
         pr = rng.random()
         parent = pick() if pr < 0.8 else (None if pr < 0.93 else '')
@@ -78,10 +82,18 @@ def random_op(rng, sc, uniq):
                 lambda: sc.add_state(st, parent), 'add_state')
     if r < 0.35:
         n = pick()
+        FREED.extend([n] + (list(sc.descendants_for(n)) if n in sc._states else []))
         return ('(ERemoveState %s)' % cstr(n), lambda: sc.remove_state(n), 'remove_state')
     if r < 0.5:
         o = pick()
-        n = 'ren%d' % next(uniq) if rng.random() < 0.7 else pick()
+        k = rng.random()
+        gone = [x for x in FREED if x not in sc._states]
+        if k < 0.3 and gone:
+            n = rng.choice(gone)          # a name that existed earlier and was renamed away / removed
+        else:
+            n = 'ren%d' % next(uniq) if k < 0.8 else pick()
+        if o in sc._states:
+            FREED.append(o)
         return ('(ERenameState %s %s)' % (cstr(o), cstr(n)), lambda: sc.rename_state(o, n), 'rename_state')
     if r < 0.65:
         n, p = pick(), pick()
@@ -185,6 +197,7 @@ def main(tier, seed):
     while len(cases) < target:
         sc = genchart.valid_chart(rng, genchart.Profile(max_states=9, p_contract=0.05, p_entry_code=0.1, p_action=0.1,
                                                         p_guard=0.1))
+        del FREED[:]
         for _ in range(rng.randint(4, 14)):
             pre = sx.chart_value(sc)
             queries(sc)       # (as a client would: traversal queries before the edit ...)
